@@ -1,8 +1,325 @@
-// C19 laws (filled in later)
+// C19: algebraic laws of expression_t::clone_deeper / subst / equal / get_size, evaluated on every expression of the
+// document (and of the queries parsed on it). Public API of expression_t only.
 #pragma once
+#include <cmath>
+
+struct LawRunner
+{
+    Dumper& d;
+    Document& doc;
+    size_t n_exprs = 0, n_nodes = 0, n_perturb = 0, n_subst = 0, n_checks = 0;
+    std::map<std::string, long long> kinds;
+    std::vector<std::array<std::string, 4>> failures;  // where, law, detail, expr
+    size_t max_nodes;
+
+    LawRunner(Dumper& d, Document& doc, size_t max_nodes): d{d}, doc{doc}, max_nodes{max_nodes} {}
+
+    using Path = std::vector<uint32_t>;
+    void collect(const expression_t& e, Path& p, std::vector<Path>& out)
+    {
+        if (e.empty() || out.size() >= max_nodes)
+            return;
+        out.push_back(p);
+        size_t n = e.get_size();
+        for (uint32_t i = 0; i < n; ++i) {
+            p.push_back(i);
+            collect(e.get(i), p, out);  // get(i) for every i < get_size(): an over-reported size shows under ASan
+            p.pop_back();
+        }
+    }
+    static const expression_t& at(const expression_t& root, const Path& p)
+    {
+        const expression_t* cur = &root;
+        for (auto i : p)
+            cur = &cur->get(i);
+        return *cur;
+    }
+    // deep copy of root with the node at path replaced
+    static expression_t replaced(const expression_t& root, const Path& p, const expression_t& repl)
+    {
+        if (p.empty())
+            return repl;
+        expression_t c = root.clone_deeper();
+        expression_t* cur = &c;
+        for (size_t i = 0; i + 1 < p.size(); ++i)
+            cur = &cur->get(p[i]);
+        cur->get(p.back()) = repl;
+        return c;
+    }
+    void fail(const std::string& where, const std::string& law, const std::string& detail, const expression_t& e)
+    {
+        if (failures.size() < 20)
+            failures.push_back({where, law, detail, d.expr_str(e)});
+    }
+    static bool swap_kind(kind_t k, kind_t& out, int& arity)
+    {
+        static const std::pair<kind_t, kind_t> bin[] = {{PLUS, MINUS},     {MULT, DIV},  {LT, LE},         {GE, GT},  {EQ, NEQ},
+                                                        {AND, OR},         {BIT_AND, BIT_OR}, {MIN, MAX},  {ASSIGN, ASS_PLUS}, {BIT_LSHIFT, BIT_RSHIFT},
+                                                        {ASS_MINUS, ASS_MULT}, {MOD, BIT_XOR}};
+        static const std::pair<kind_t, kind_t> un[] = {{NOT, UNARY_MINUS}, {PRE_INCREMENT, PRE_DECREMENT}, {POST_INCREMENT, POST_DECREMENT}};
+        for (auto& pr : bin) {
+            if (pr.first == k) { out = pr.second; arity = 2; return true; }
+            if (pr.second == k) { out = pr.first; arity = 2; return true; }
+        }
+        for (auto& pr : un) {
+            if (pr.first == k) { out = pr.second; arity = 1; return true; }
+            if (pr.second == k) { out = pr.first; arity = 1; return true; }
+        }
+        return false;
+    }
+    symbol_t other_symbol(const symbol_t& s)
+    {
+        frame_t gf = doc.get_globals().frame;
+        for (uint32_t i = 0; i < gf.get_size(); ++i)
+            if (gf[i] != s && gf[i] != symbol_t())
+                return gf[i];
+        return symbol_t();
+    }
+
+    void run(const std::string& where, const expression_t& e)
+    {
+        if (e.empty())
+            return;
+        ++n_exprs;
+        const std::string dump0 = d.expr_str(e);
+        const std::string type0 = d.type_str(e.get_type());
+        std::vector<Path> paths;
+        Path p;
+        collect(e, p, paths);
+        n_nodes += paths.size();
+        for (auto& q : paths)
+            ++kinds[kind_name(at(e, q).get_kind())];
+
+        // ---- clone_deeper
+        expression_t c = e.clone_deeper();
+        ++n_checks;
+        if (!c.equal(e) || !e.equal(c))
+            fail(where, "clone-equal", "a deep clone is not equal() to its original", e);
+        if (d.expr_str(c) != dump0)
+            fail(where, "clone-dump", "a deep clone dumps differently: " + d.expr_str(c), e);
+        {
+            std::vector<Path> cpaths;
+            Path cp;
+            collect(c, cp, cpaths);
+            if (cpaths.size() != paths.size())
+                fail(where, "clone-shape", "a deep clone has a different number of nodes", e);
+            else if (paths.size() <= 120) {
+                for (auto& a : paths)
+                    for (auto& b : cpaths)
+                        if (at(e, a) == at(c, b)) {
+                            fail(where, "clone-shares-node", "node " + std::string(kind_name(at(e, a).get_kind())) + " of the original is the same object as a node of the clone", e);
+                            goto shared_done;
+                        }
+            shared_done:;
+            } else {
+                for (size_t i = 0; i < paths.size(); ++i)
+                    if (at(e, paths[i]) == at(c, cpaths[i])) {
+                        fail(where, "clone-shares-node", "a node of the original is the same object as the corresponding node of the clone", e);
+                        break;
+                    }
+            }
+            // later changes to the clone do not affect the original (and vice versa)
+            type_t marker = type_t::create_primitive(Constants::VOID_TYPE);
+            for (auto& b : cpaths) {
+                expression_t* cur = &c;
+                for (auto i : b)
+                    cur = &cur->get(i);
+                cur->set_type(marker);
+            }
+            if (c.get_size() > 0)
+                c.get(0) = expression_t::create_constant(424242);
+            ++n_checks;
+            if (d.expr_str(e) != dump0 || d.type_str(e.get_type()) != type0)
+                fail(where, "clone-independent", "changing the clone changed the original: " + d.expr_str(e), e);
+            bool types_ok = true;
+            for (auto& a : paths)
+                if (at(e, a).get_type() == marker)
+                    types_ok = false;
+            if (!types_ok)
+                fail(where, "clone-independent", "set_type on a node of the clone changed the type of a node of the original", e);
+            // and the other way round: change a fresh clone's source
+            expression_t src = e.clone_deeper();
+            expression_t c2 = src.clone_deeper();
+            const std::string c2dump = d.expr_str(c2);
+            if (src.get_size() > 0)
+                src.get(src.get_size() - 1) = expression_t::create_constant(-7);
+            src.set_type(marker);
+            if (d.expr_str(c2) != c2dump || c2.get_type() == marker)
+                fail(where, "clone-independent", "changing the original changed the clone", e);
+        }
+
+        // ---- equal: reflexive, symmetric, transitive, implies equal text
+        {
+            expression_t c1 = e.clone_deeper(), c2 = c1.clone_deeper();
+            ++n_checks;
+            if (!e.equal(e))
+                fail(where, "equal-reflexive", "e.equal(e) is false", e);
+            if (e.equal(c1) != c1.equal(e))
+                fail(where, "equal-symmetric", "equal is not symmetric on (e, clone)", e);
+            if (e.equal(c1) && c1.equal(c2) && !e.equal(c2))
+                fail(where, "equal-transitive", "equal is not transitive on (e, clone, clone of clone)", e);
+            std::string s1, s2, ex;
+            if (e.equal(c1) && safe_str(e, s1, ex) && safe_str(c1, s2, ex) && s1 != s2)
+                fail(where, "equal-text", "equal trees print differently: '" + s1 + "' vs '" + s2 + "'", e);
+        }
+
+        // ---- subst
+        {
+            std::set<symbol_t> syms;
+            e.get_symbols(syms);
+            // get_symbols may follow types; restrict to symbols that occur in IDENTIFIER nodes of the tree
+            std::vector<symbol_t> occurring;
+            for (auto& q : paths) {
+                const expression_t& n = at(e, q);
+                if (n.get_kind() == IDENTIFIER && n.get_symbol() != symbol_t()) {
+                    bool seen = false;
+                    for (auto& s : occurring)
+                        if (s == n.get_symbol())
+                            seen = true;
+                    if (!seen)
+                        occurring.push_back(n.get_symbol());
+                }
+            }
+            expression_t r = expression_t::create_constant(42);
+            const std::string rdump = d.expr_str(r);
+            size_t budget = 4;
+            for (auto& s : occurring) {
+                if (budget-- == 0)
+                    break;
+                ++n_subst;
+                expression_t self = e.subst(s, expression_t::create_identifier(s));
+                if (d.expr_str(self) != dump0)
+                    fail(where, "subst-identity", "substituting " + s.get_name() + " by itself changed the tree: " + d.expr_str(self), e);
+                expression_t sub = e.subst(s, r);
+                std::string expected = dump0;
+                const std::string needle = "(IDENTIFIER " + d.sym_id(s) + ")";
+                size_t pos = 0, hits = 0;
+                while ((pos = expected.find(needle, pos)) != std::string::npos) {
+                    expected.replace(pos, needle.size(), rdump);
+                    pos += rdump.size();
+                    ++hits;
+                }
+                if (d.expr_str(sub) != expected)
+                    fail(where, "subst-exact", "substituting " + s.get_name() + " by 42 gives " + d.expr_str(sub) + ", expected " + expected, e);
+                if (d.expr_str(e) != dump0)
+                    fail(where, "subst-pure", "subst changed the expression it was applied to", e);
+                if (hits > 0 && sub.equal(e))
+                    fail(where, "subst-equal", "the substituted tree is equal() to the original", e);
+            }
+            // a symbol that does not occur: identity
+            symbol_t foreign = other_symbol(occurring.empty() ? symbol_t() : occurring[0]);
+            bool occurs = false;
+            for (auto& s : occurring)
+                if (s == foreign)
+                    occurs = true;
+            if (foreign != symbol_t() && !occurs) {
+                expression_t sub = e.subst(foreign, r);
+                if (d.expr_str(sub) != dump0)
+                    fail(where, "subst-foreign", "substituting a symbol that does not occur changed the tree", e);
+            }
+        }
+
+        // ---- single-node perturbations must be distinguished by equal()
+        size_t pbudget = 40;
+        for (auto& q : paths) {
+            if (pbudget == 0)
+                break;
+            const expression_t& n = at(e, q);
+            std::vector<std::pair<std::string, expression_t>> variants;
+            kind_t k = n.get_kind();
+            try {
+                if (k == CONSTANT) {
+                    type_t t = n.get_type();
+                    if (t.is(Constants::DOUBLE))
+                        variants.emplace_back("constant-next-double", expression_t::create_double(std::nextafter(n.get_double_value(), 1e308)));
+                    else if (t.is_integral() && !t.is_string())
+                        variants.emplace_back("constant-plus-one", expression_t::create_constant(n.get_value() == INT32_MAX ? n.get_value() - 1 : n.get_value() + 1));
+                } else if (k == IDENTIFIER) {
+                    symbol_t o = other_symbol(n.get_symbol());
+                    if (o != symbol_t())
+                        variants.emplace_back("other-symbol", expression_t::create_identifier(o));
+                } else if (k == DOT) {
+                    variants.emplace_back("dot-index", expression_t::create_dot(n.get(0).clone_deeper(), n.get_index() == 0 ? 1 : 0, {}, n.get_type()));
+                } else if (k == SYNC) {
+                    variants.emplace_back("sync-direction", expression_t::create_sync(n.get(0).clone_deeper(), n.get_sync() == SYNC_BANG ? SYNC_QUE : SYNC_BANG));
+                }
+                kind_t k2;
+                int ar;
+                if (swap_kind(k, k2, ar) && (int)n.get_size() == ar) {
+                    if (ar == 2)
+                        variants.emplace_back("kind-swap", expression_t::create_binary(k2, n.get(0).clone_deeper(), n.get(1).clone_deeper(), {}, n.get_type()));
+                    else
+                        variants.emplace_back("kind-swap", expression_t::create_unary(k2, n.get(0).clone_deeper(), {}, n.get_type()));
+                }
+                if (n.get_size() >= 2 && !n.get(0).empty() && !n.get(1).empty() && !n.get(0).equal(n.get(1))) {
+                    expression_t sw = n.clone_deeper();
+                    expression_t tmp = sw.get(0);
+                    sw.get(0) = sw.get(1);
+                    sw.get(1) = tmp;
+                    variants.emplace_back("children-swapped", sw);
+                }
+                if ((k == LIST || k == FUN_CALL) && n.get_size() >= 2) {
+                    std::vector<expression_t> fewer;
+                    for (size_t i = 0; i + 1 < n.get_size(); ++i)
+                        fewer.push_back(n.get(i).clone_deeper());
+                    variants.emplace_back("child-dropped", expression_t::create_nary(k, fewer, {}, n.get_type()));
+                }
+            } catch (std::exception& ex) {
+                continue;  // accessor not valid for this node shape: no variant
+            }
+            for (auto& v : variants) {
+                if (pbudget == 0)
+                    break;
+                --pbudget;
+                ++n_perturb;
+                expression_t pe = replaced(e, q, v.second);
+                if (pe.equal(e) || e.equal(pe))
+                    fail(where, "equal-distinguishes:" + v.first,
+                         "a tree that differs in one node (" + std::string(kind_name(k)) + ", " + v.first + ") is equal() to the original: " + d.expr_str(pe), e);
+            }
+        }
+        if (d.expr_str(e) != dump0)
+            fail(where, "purity", "the law checks themselves changed the expression (clone_deeper is not deep)", e);
+    }
+};
+
 inline void run_laws(JW& j, const Step& st, Document& doc, Dumper& d, const std::vector<std::string>& queries,
                      const std::string& qmode)
 {
+    LawRunner lr{d, doc, (size_t)atoi(st.get("law_max_nodes", "80").c_str())};
+    ExprCollector c;
+    if (st.get("law_skip_doc", "0") != "1")
+        c.document(doc);
+    for (auto& we : c.out)
+        lr.run(we.first, we.second);
+    size_t qparsed = 0;
+    for (auto& q : queries) {
+        QueryParse r = parse_query(doc, q, qmode);
+        for (auto& e : r.exprs)
+            if (!e.empty()) {
+                ++qparsed;
+                lr.run("query:" + q, e);
+            }
+    }
     j.k("laws").o();
+    j.k("expressions").num((long long)lr.n_exprs);
+    j.k("query_expressions").num((long long)qparsed);
+    j.k("nodes").num((long long)lr.n_nodes);
+    j.k("perturbations").num((long long)lr.n_perturb);
+    j.k("substitutions").num((long long)lr.n_subst);
+    j.k("kinds").o();
+    for (auto& kv : lr.kinds)
+        j.k(kv.first).num(kv.second);
+    j.e();
+    j.k("failures").a();
+    for (auto& f : lr.failures) {
+        j.o();
+        j.k("where").str(f[0]);
+        j.k("law").str(f[1]);
+        j.k("detail").str(f[2]);
+        j.k("expr").str(f[3]);
+        j.e();
+    }
+    j.e();
     j.e();
 }
